@@ -71,6 +71,7 @@ pub struct Profile {
     pub w: [u64; 18],
     pub small_amounts: bool,
     pub oracle_prices: Vec<u128>,
+    pub init_balances: bool,
 }
 
 pub fn profile(name: &str) -> Profile {
@@ -85,6 +86,7 @@ pub fn profile(name: &str) -> Profile {
         w: [10, 8, 10, 5, 8, 6, 3, 10, 3, 2, 4, 4, 3, 2, 1, 2, 1, 2],
         small_amounts: false,
         oracle_prices: vec![D, D / 2, 3 * D, D / 1000, 1000 * D],
+        init_balances: false,
     };
     match name {
         "mixed" => base,
@@ -116,6 +118,13 @@ pub fn profile(name: &str) -> Profile {
         "token" => Profile {
             name: "token",
             w: [8, 3, 5, 3, 2, 20, 12, 4, 1, 0, 5, 6, 8, 1, 0, 0, 0, 3],
+            ..base
+        },
+        // tokens instantiated with initial balances (repeated addresses included)
+        "tokeninit" => Profile {
+            name: "tokeninit",
+            init_balances: true,
+            w: [6, 4, 5, 3, 2, 22, 14, 3, 1, 0, 2, 2, 3, 1, 0, 0, 0, 4],
             ..base
         },
         // rewards: index updates, dispatch, claims
@@ -168,11 +177,23 @@ impl Gen {
         let rate = r.pick(&self.p.keeper_rates);
         self.nvals = 1 + r.below(4) as usize;
         let vals: Vec<Id> = VALS[..self.nvals].to_vec();
+        let mut bb: Vec<(Id, u128)> = vec![];
+        let mut sb: Vec<(Id, u128)> = vec![];
+        if self.p.init_balances {
+            for _ in 0..r.below(5) {
+                bb.push((r.pick(&USERS), 1 + r.below128(1_000_000)));
+            }
+            let mut us = USERS.to_vec();
+            for _ in 0..r.below(4) {
+                let k = r.below(us.len() as u64) as usize;
+                sb.push((us.remove(k), 1 + r.below128(1_000_000)));
+            }
+        }
         let mut ops = vec![
             Op::Reset,
             Op::Inst(Inst::Hub { sender: OWNER, epoch, unbonding, fee, thr, rd: 1, updater: UPDATER }),
-            Op::Inst(Inst::Bsei { sender: OWNER, hub: HUB, bals: vec![] }),
-            Op::Inst(Inst::Stsei { sender: OWNER, hub: HUB, bals: vec![] }),
+            Op::Inst(Inst::Bsei { sender: OWNER, hub: HUB, bals: bb }),
+            Op::Inst(Inst::Stsei { sender: OWNER, hub: HUB, bals: sb }),
             Op::Inst(Inst::Reward { sender: OWNER, hub: HUB, denom: 1, swap: SWAP, denoms: vec![0, 1] }),
             Op::Inst(Inst::Disp {
                 sender: OWNER,
@@ -195,6 +216,10 @@ impl Gen {
             Op::Env(EnvOp::UnbondingTime(unbonding)),
             Op::Env(EnvOp::Advance(unbonding + 1)),
         ];
+        if self.p.init_balances && r.chance(1, 2) {
+            // a re-instantiation attempt with a repeated address: cw20-base rejects it
+            ops.push(Op::Inst(Inst::Stsei { sender: OWNER, hub: HUB, bals: vec![(5, 3), (6, 1), (5, 4)] }));
+        }
         let price = r.pick(&self.p.oracle_prices);
         ops.push(Op::Env(EnvOp::Oracle(true, price)));
         for u in USERS.iter() {
